@@ -4,7 +4,7 @@
    NOT proved: that the simplifier is right on inputs that were not run (that would be a theorem about sympy). *)
 From Coq Require Import List String ZArith QArith Qabs.
 From Verif Require Import Base.Result Base.Str Base.Sexp Model.Tokenizer Spec.Poly Model.SymbolicGlue Proofs.C13_Poly Proofs.C13_Glue
-  Proofs.C13_Readback.
+  Proofs.C13_Readback Model.Elimination Proofs.C13_Elim.
 Import ListNotations.
 Open Scope Q_scope.
 
@@ -175,6 +175,40 @@ Theorem C13_symbol_printed_back : forall m s1 s2 t,
   inj_map m -> lookup_sym m s1 = Some t -> lookup_sym m s2 = Some t -> s1 = s2.
 Proof. exact lookup_sym_injective. Qed.
 
+(* THE ELIMINATION DECISION (Model/Elimination.v: NumericalExpressionTree.extract_eliminated_expressions and the skeleton of
+   Precondition._simplify_numeric_preconditions, compared with the code on every call of a run).
+   The assumption "A = R" extracted from an equality of the conjunction holds wherever that equality holds - whatever the
+   shape of the equality (only (= (+ A B) R) is used: A = R - B, and A = -1 * B when R is the number zero) ... *)
+Theorem C13_assumption_follows : forall c a r rho,
+  extract_eliminated c = Some (a, r) -> sat rho c -> eval rho a == eval rho r.
+Proof. exact extract_eliminated_sound. Qed.
+
+(* ... so every assumption handed to simplify_inequality follows from the equalities of the conjunction *)
+Theorem C13_assumptions_follow : forall conds rho,
+  sat_all rho (filter is_eq conds) -> Forall (holds_assumption rho) (assumptions_of conds).
+Proof. exact assumptions_follow. Qed.
+
+(* the skeleton of _simplify_numeric_preconditions (which condition goes to which printer, with which assumptions, what is
+   returned) preserves the meaning of the conjunction when the two printers are exact: a printed condition means the same as
+   its input (an inequality: wherever the assumptions hold) and a condition is dropped only when it holds (an inequality:
+   wherever the assumptions hold).  The printers themselves go through sympy: their outputs are validated per run by the
+   checker above, with rounding; this theorem is about the composition only. *)
+Theorem C13_composition_exact : forall (S : Type) (ssat : valuation -> S -> Prop)
+    (simp_eq : cond -> option S) (simp_ineq : cond -> list (expr * expr) -> option S),
+  (forall c o rho, is_eq c = true -> simp_eq c = Some o -> (ssat rho o <-> sat rho c)) ->
+  (forall c rho, is_eq c = true -> simp_eq c = None -> sat rho c) ->
+  (forall c asm o rho, is_eq c = false -> simp_ineq c asm = Some o ->
+                       Forall (holds_assumption rho) asm -> (ssat rho o <-> sat rho c)) ->
+  (forall c asm rho, is_eq c = false -> simp_ineq c asm = None -> Forall (holds_assumption rho) asm -> sat rho c) ->
+  forall conds rho,
+    Forall (ssat rho) (simplify_numeric_preconditions simp_eq simp_ineq conds) <-> sat_all rho conds.
+Proof. exact composition_exact. Qed.
+
+(* its hypotheses are satisfiable by a printer that really substitutes and really drops (Proofs/C13_Elim.v: subst_printer) *)
+Theorem C13_composition_example : forall conds rho,
+  Forall (sat rho) (simplify_numeric_preconditions (fun c => Some c) subst_printer conds) <-> sat_all rho conds.
+Proof. exact composition_with_substituting_printer. Qed.
+
 Print Assumptions C13_norm_sound.
 Print Assumptions C13_glue.
 Print Assumptions C13_glue_text.
@@ -197,3 +231,7 @@ Print Assumptions C13_omitted_only_if_implied.
 Print Assumptions C13_eround_zero.
 Print Assumptions C13_traced_pre_same.
 Print Assumptions C13_traced_expr_same.
+Print Assumptions C13_assumption_follows.
+Print Assumptions C13_assumptions_follow.
+Print Assumptions C13_composition_exact.
+Print Assumptions C13_composition_example.
